@@ -49,3 +49,15 @@ package evm
 //@ loop #1
 //@   invariant true
 //@   step[C19.ctd.funds] res_Sign_0 > 0 ==> defined(res_CanTransfer_0) && res_CanTransfer_0
+
+// C19 (the gas reported for a transaction is the gas of THAT transaction): the running per-transaction gas total is reset
+// before every transaction - single-message ones included; it lives in the transient store, which is only emptied at
+// the end of the block.
+//@ func (EthSetupContextDecorator).AnteHandle#next
+//@   flag assumed
+//@   modifies state(ctx), trace
+//@ func (EthSetupContextDecorator).AnteHandle
+//@   flag noframe
+//@   flag pure=Wrapf,NewInfiniteGasMeter,GetMsgs
+//@   flag havoc=ResetTransientGasUsed
+//@   before[C19.esc.reset] #next requires defined(res_ResetTransientGasUsed_0)
